@@ -13,6 +13,12 @@ class UsmModel:
         self.current = None
         self.template = None
         self.log = []
+        self.client = None  # optional listener of the current-system notification: called with the id, may call back into the model
+
+    def _notify_current(self, sid):
+        self.log.append(("current", sid))
+        if self.client is not None:
+            self.client(sid)
 
     def add(self, sid, mapping):
         if sid in self.systems:
@@ -27,7 +33,7 @@ class UsmModel:
         self.systems[sid] = dict(mapping)
         if self.current is None:
             self.current = sid
-            self.log.append(("current", sid))
+            self._notify_current(sid)
         return None
 
     def remove(self, sid):
@@ -36,12 +42,12 @@ class UsmModel:
         del self.systems[sid]
         if self.current == sid:
             self.current = next(iter(self.systems), None)
-            self.log.append(("current", self.current))
+            self._notify_current(self.current)
         return None
 
     def set_current(self, sid):
         self.current = sid
-        self.log.append(("current", sid))
+        self._notify_current(sid)
         return None
 
     def set_template(self, mapping):
